@@ -100,6 +100,34 @@ def huge_bound_cases():
     return out
 
 
+def other_keyword_cases():
+    """typed objects and arrays that also carry a keyword the generator does not turn into a check (not, if/then, minProperties, propertyNames, patternProperties,
+    dependencies, uniqueItems, contains), written so that no document of the family is affected by it: the typed positions keep rejecting other JSON types -
+    at a property, behind a reference, as array items and as map values"""
+    from vlib.kitchen import Case
+    extras = [{"not": {"required": ["zzz"]}}, {"if": {"required": ["zzz"]}, "then": {"required": ["yyy"]}}, {"minProperties": 0, "maxProperties": 99},
+              {"propertyNames": {"pattern": ".*"}}, {"patternProperties": {"^zz": {}}}, {"dependencies": {"zzz": {"required": ["yyy"]}}}, {"dependentRequired": {"zzz": ["yyy"]}}]
+    out = []
+    n = 0
+    for ex in extras:
+        obj = dict({"type": "object", "properties": {"email": {"type": "string"}, "age": {"type": "integer"}, "tags": dict({"type": "array", "items": {"type": "string"}}, uniqueItems=True)}}, **ex)
+        root = {"type": "object", "$defs": {"Contact": obj}, "properties": {"inline": obj, "ref": {"$ref": "#/$defs/Contact"}, "list": {"type": "array", "items": {"$ref": "#/$defs/Contact"}},
+                                                                           "map": {"type": "object", "additionalProperties": {"$ref": "#/$defs/Contact"}}}}
+        good = {"email": "e", "age": 3, "tags": ["a", "b"]}
+        docs = [{"doc": {"inline": good, "ref": good, "list": [good], "map": {"k": good}}, "cls": "valid", "path": (), "expect": "ACC"}]
+        for k, bads in (("email", [5, True, ["e"]]), ("age", ["3", 1.5, None if False else {"a": 1}]), ("tags", ["a", [1], {"a": 1}])):
+            for b in bads:
+                bad = dict(good, **{k: b})
+                for place, w in (("inline", lambda v: v), ("ref", lambda v: v), ("list", lambda v: [v]), ("map", lambda v: {"k": v})):
+                    docs.append({"doc": {place: w(bad)}, "cls": "type", "path": (place, k), "expect": "REJ"})
+        for place in ("inline", "ref"):
+            for b in (5, "s", [1], True):
+                docs.append({"doc": {place: b}, "cls": "type", "path": (place,), "expect": "REJ"})
+        out.append(Case("c03ok%d" % n, root, docs, fam="other-keywords/%s" % sorted(ex)[0]))
+        n += 1
+    return out
+
+
 def nullable_composites():
     """allOf / anyOf groups whose members are nullable objects (both spellings of the type list, one to three members, inline and as a definition): every
     typed property below the group still rejects a value of another JSON type"""
@@ -150,7 +178,7 @@ def run(ctx):
     from vlib.pairwise import sized_enum
     sysi = [r for r in sysm if "integer" in json.dumps(r) and not sized_enum(r)]
     cases += build_cases(ctx, len(sysi), None, CLASSES | {"null-not-allowed"}, "c03m", extra_schemas=sysi, docs_per=2, minsized=True, fam="min-sized")
-    nc = nullable_composites() + huge_bound_cases()
+    nc = nullable_composites() + huge_bound_cases() + other_keyword_cases()
     run_cases(ctx, cases + nc, "c03")
     evaluate(ctx, cases, CLASSES, {"type": "invalid", "null-allowed": "valid", "valid": "valid"}, "JSON types")
     nnc = 0
